@@ -3,6 +3,7 @@ of the reference system) plus seeded random longer lists over a richer alphabet 
 TLC judges (input, output, output normalised again)."""
 import itertools
 import json
+import zlib
 
 from harness import core, project as P
 from harness.common import pmap
@@ -36,6 +37,11 @@ def execute(rel):
                 raise core.MachineryError("in-place edit route did not produce the input")
         else:
             s = Sequence(relative_sequence=RelativeSequence(msgs))
+        if zlib.crc32(json.dumps(rel, sort_keys=True).encode()) % 4 == 0:
+            # history: the sequence was normalised, then all its messages were moved to one channel in place (set_channel), so
+            # that notes of two channels now coincide; the judged call normalises what the object holds now
+            s.normalise()
+            s.set_channel(1 if len(rel) % 2 else 0)
         line["in"] = [P.msg(m) for m in s.rel._messages]
         if len(rel) % 4 == 3:
             s.refresh()          # the absolute view is live as well when normalise is called
